@@ -4559,7 +4559,7 @@ def self_check(facts):
             raise AnalysisBroken("normalise", "control %s: local `%s` was substituted although a write intervenes" % (q, var))
         if mode == "subst" and uses:
             raise AnalysisBroken("normalise", "control %s: local `%s` was not substituted" % (q, var))
-    if seen < 10:
+    if seen < 26:
         raise AnalysisBroken("normalise", "only %d normalisation controls found (tu/normalize_fixtures.cpp)" % seen)
     # the fixtures are not part of the analysed program
     for k in [k for k, f in facts.functions.items() if f["qn"].startswith("verif_fx::")]:
